@@ -10,7 +10,29 @@ use std::path;
 use crate::app::{analyze as app_analyze, log};
 use crate::core::{self, graph, Change};
 
-/// `serde_json::from_str::<Config>` -> `Index::new(all targets)` -> `app::analyze::analyze`,
+thread_local! {
+    static CFG_FILE: std::cell::RefCell<Option<path::PathBuf>> = const { std::cell::RefCell::new(None) };
+}
+
+/// Loads a configuration the way the CLI does: the JSON text is written to a per-thread scratch
+/// file under `work_path` and read back through `Config::new` (the production file loader), so
+/// anything the loader does to the configuration is part of what the explorers exercise.
+fn load_config(config_json: &str, work_path: &path::Path) -> Result<core::Config, String> {
+    let file = CFG_FILE.with(|c| {
+        c.borrow_mut()
+            .get_or_insert_with(|| {
+                work_path.join(format!(
+                    ".verif-config-{:?}.json",
+                    std::thread::current().id()
+                ))
+            })
+            .clone()
+    });
+    std::fs::write(&file, config_json).map_err(|e| e.to_string())?;
+    core::Config::new(&file).map_err(|e| e.to_string())
+}
+
+/// `Config::new` -> `Index::new(all targets)` -> `app::analyze::analyze`,
 /// i.e. what `handle_analyze` does once the change list is known.
 pub fn analyze(
     config_json: &str,
@@ -20,7 +42,7 @@ pub fn analyze(
     show_target_groups: bool,
     work_path: &path::Path,
 ) -> Result<String, String> {
-    let cfg: core::Config = serde_json::from_str(config_json).map_err(|e| e.to_string())?;
+    let cfg = load_config(config_json, work_path)?;
     let mut index = core::Index::new(&cfg, &cfg.get_target_path_set(), work_path)
         .map_err(|e| e.to_string())?;
     let input =
@@ -70,7 +92,7 @@ pub fn index_groups(
     visible: &[String],
     work_path: &path::Path,
 ) -> Result<Vec<Vec<String>>, String> {
-    let cfg: core::Config = serde_json::from_str(config_json).map_err(|e| e.to_string())?;
+    let cfg = load_config(config_json, work_path)?;
     let vis: HashSet<&String> = visible.iter().collect();
     let mut index = core::Index::new(&cfg, &vis, work_path).map_err(|e| e.to_string())?;
     index.dag.get_labeled_groups().map_err(|e| e.to_string())
@@ -83,7 +105,7 @@ pub fn index_edges(
     work_path: &path::Path,
     scratch_file: &path::Path,
 ) -> Result<Vec<(String, String)>, String> {
-    let cfg: core::Config = serde_json::from_str(config_json).map_err(|e| e.to_string())?;
+    let cfg = load_config(config_json, work_path)?;
     let vis: HashSet<&String> = HashSet::new();
     let index = core::Index::new(&cfg, &vis, work_path).map_err(|e| e.to_string())?;
     index
